@@ -346,9 +346,16 @@ func c08Tasks(tier string) []Task {
 	hm1.Shards = 1
 	rot := defaultCfg
 	rot.FileSize = 64 // every record rotates the active file: writers racing a Merge roll the file over during the scan
+	al := defaultCfg
+	al.Sync = 1 // Always: every Put / Delete flushes inside its critical section
+	thr := defaultCfg
+	thr.Sync, thr.BPS = 2, 20 // Threshold: every second small write flushes
 	var levels []c08Level
 	if tier == "quick" {
 		levels = []c08Level{
+			{"2x1", -1, c08Inits, []Cfg{al, thr}},
+			{"2+1", -1, c08Inits, []Cfg{al}},
+			{"2x2", 3, c08Inits, []Cfg{al}},
 			{"2x1", -1, c08Inits, []Cfg{hm, bt, sl, hm1}},
 			{"2+1", -1, c08Inits, []Cfg{hm, bt}},
 			{"3x1", -1, c08Inits, []Cfg{hm, bt}},
@@ -362,6 +369,10 @@ func c08Tasks(tier string) []Task {
 		}
 	} else {
 		levels = []c08Level{
+			{"2x1", -1, c08Inits, []Cfg{al, thr}},
+			{"2+1", -1, c08Inits, []Cfg{al, thr}},
+			{"2x2", -1, c08Inits, []Cfg{al}},
+			{"3x1", -1, c08Inits, []Cfg{al}},
 			{"2x1", -1, c08Inits, []Cfg{hm, bt, sl, hm1}},
 			{"2+1", -1, c08Inits, []Cfg{hm, bt, sl, hm1}},
 			{"3x1", -1, c08Inits, []Cfg{hm, bt, sl, hm1}},
